@@ -161,14 +161,51 @@ pub fn worker_c15(req: &Value, _io: &mut ServerIo) -> Value {
         let _ = std::fs::write(dir.join("progress.json"), json!({"write": k, "fmt": f}).to_string());
         let bindings = &current.as_ref().unwrap().1;
         let t0 = std::time::Instant::now();
-        let mut buf: Vec<u8> = vec![];
-        let r = std::panic::catch_unwind(std::panic::AssertUnwindSafe(|| bindings.write(&mut buf)));
+        // write() runs on its own thread so that a hang can be told from slowness: after
+        // `limit` the formatter is driven by a reference pipe driver (writer thread, drained
+        // stdout, wait); if it terminates there, the formatter is not what blocks
+        struct SendPtr(*const bindgen::Bindings);
+        unsafe impl Send for SendPtr {}
+        let (tx, rx) = std::sync::mpsc::channel::<(Result<std::io::Result<()>, String>, Vec<u8>)>();
+        let ptr = SendPtr(bindings as *const _);
+        let _ = std::thread::Builder::new().stack_size(64 << 20).spawn(move || {
+            let ptr = ptr;
+            // the pointee outlives the thread: the worker either waits for the result or exits
+            let b: &bindgen::Bindings = unsafe { &*ptr.0 };
+            let mut buf: Vec<u8> = vec![];
+            let r = std::panic::catch_unwind(std::panic::AssertUnwindSafe(|| b.write(&mut buf)));
+            let r = r.map_err(|_| crate::bg::take_last_panic().unwrap_or_default());
+            let _ = tx.send((r, buf));
+        });
+        let limit = std::env::var("BGV_C15_HANG_S").ok().and_then(|s| s.parse().ok()).unwrap_or(60u64);
+        let mut got = rx.recv_timeout(std::time::Duration::from_secs(limit)).ok();
+        let mut reference_ms = None;
+        if got.is_none() {
+            reference_ms = reference_drive(&dir, f, &reference, 120);
+            // slowness is not a hang: allow 50 times what the formatter itself needs
+            if let Some(ms) = reference_ms {
+                let allow = std::time::Duration::from_millis(ms.saturating_mul(50));
+                if allow > t0.elapsed() {
+                    got = rx.recv_timeout(allow - t0.elapsed()).ok();
+                }
+            }
+        }
+        let (r, buf) = match got {
+            Some(x) => x,
+            None => {
+                let mut res = json!({"fmt": f, "ms": t0.elapsed().as_millis() as u64, "outcome": "hang", "reference_driver_ms": reference_ms});
+                res["detail"] = json!(format!("write() has not returned after {} s; the same formatter fed the same text through a draining pipe driver {}", t0.elapsed().as_secs(), match reference_ms { Some(ms) => format!("terminates in {ms} ms"), None => "does not terminate either".into() }));
+                results.push(res);
+                // the write thread still borrows the bindings: answer and leave
+                return json!({"results": results, "reference_bytes": reference.len(), "_exit": true});
+            }
+        };
         let ms = t0.elapsed().as_millis() as u64;
         let mut res = json!({"fmt": f, "ms": ms});
         match r {
-            Err(_) => {
+            Err(p) => {
                 res["outcome"] = json!("panic");
-                res["detail"] = json!(crate::bg::take_last_panic().unwrap_or_default());
+                res["detail"] = json!(p);
             }
             Ok(Err(e)) => {
                 res["outcome"] = json!("err");
@@ -224,6 +261,48 @@ pub fn worker_c15(req: &Value, _io: &mut ServerIo) -> Value {
     json!({"results": results, "reference_bytes": reference.len()})
 }
 
+/// Runs the external formatter of `f` the way a correct caller does (stdin fed from a thread,
+/// stdout drained to the end, then wait). Some(ms) = it terminated; None = it did not within
+/// `limit_s` (or `f` has no external process).
+fn reference_drive(dir: &Path, f: &Fmt, text: &str, limit_s: u64) -> Option<u64> {
+    use std::io::{Read, Write};
+    use std::process::{Command, Stdio};
+    let exe = match f {
+        Fmt::Fake(_) => std::env::var("BGV_FAKEFMT").unwrap_or_else(|_| "/verif/target/release/fakefmt".into()),
+        Fmt::RustfmtReal => "rustfmt".to_string(),
+        _ => return None,
+    };
+    let t0 = std::time::Instant::now();
+    let mut child = Command::new(exe).current_dir(dir).stdin(Stdio::piped()).stdout(Stdio::piped()).stderr(Stdio::null()).spawn().ok()?;
+    let mut stdin = child.stdin.take()?;
+    let mut stdout = child.stdout.take()?;
+    let input = text.to_string();
+    std::thread::spawn(move || {
+        let _ = stdin.write_all(input.as_bytes());
+    });
+    let (tx, rx) = std::sync::mpsc::channel();
+    std::thread::spawn(move || {
+        let mut v = vec![];
+        let _ = stdout.read_to_end(&mut v);
+        let _ = tx.send(());
+    });
+    let drained = rx.recv_timeout(std::time::Duration::from_secs(limit_s)).is_ok();
+    if !drained {
+        let _ = child.kill();
+        let _ = child.wait();
+        return None;
+    }
+    use wait_timeout::ChildExt;
+    match child.wait_timeout(std::time::Duration::from_secs(limit_s)) {
+        Ok(Some(_)) => Some(t0.elapsed().as_millis() as u64),
+        _ => {
+            let _ = child.kill();
+            let _ = child.wait();
+            None
+        }
+    }
+}
+
 // ---------------------------------------------------------------------------------------------
 
 fn fmt_name(f: &Fmt) -> String {
@@ -268,7 +347,7 @@ impl Property for C15 {
         vec![
             "a formatter that exits 0 with well-formed but different text is trusted by design (outside the claim)".into(),
             "the scripted child (harness/fakefmt) stands in for rustfmt; real rustfmt is used for the no-fault formatter comparison on the two smaller size classes".into(),
-            "a hang shows up as the 120 s worker watchdog and is reported as inconclusive, never as a violation".into(),
+            "a write() that has not returned after max(60 s, 50 x the reference driver's time) is a violation only if the same formatter, fed the same text by a reference pipe driver that drains its output, terminates (then the formatter is not what blocks); otherwise, and for the 240 s + 1200 s worker watchdog, the case is inconclusive".into(),
         ]
     }
     fn parallelism(&self) -> usize {
@@ -291,6 +370,13 @@ impl Property for C15 {
     }
     fn generated(&self, tier: Tier) -> usize {
         tier.pick(60, 2000)
+    }
+    // an evaluation that ends in a hang costs a minute: keep minimisation short
+    fn shrink_steps(&self) -> usize {
+        12
+    }
+    fn max_shrunk_signatures(&self) -> usize {
+        3
     }
     fn fixed_cases(&self, tier: Tier) -> Vec<Case> {
         let mut v = vec![];
@@ -322,13 +408,13 @@ impl Property for C15 {
             11..=2000 => "200KB",
             _ => "4MB",
         };
-        let v = match worker::call(&req, 240) {
+        let v = match worker::call(&req, 600) {
             Reply::Ok(v) => v,
             Reply::Timeout => {
                 let progress = std::fs::read_to_string(env.dir.join("progress.json")).unwrap_or_default();
                 // re-run once with a much longer watchdog before calling it a hang
                 return match worker::call(&req, 1200) {
-                    Reply::Ok(_) => out.inconclusive(format!("slow (needed > 240 s) at {progress}")),
+                    Reply::Ok(_) => out.inconclusive(format!("slow (needed > 600 s) at {progress}")),
                     _ => out.inconclusive(format!("write() did not return within the watchdog at {progress} (possible hang)")),
                 };
             }
@@ -362,6 +448,17 @@ impl Property for C15 {
                 }
                 "panic" => {
                     out.fail(format!("write-panicked/{name}"), format!("{size_class} {settings}: {}", r["detail"]));
+                    continue;
+                }
+                "hang" => {
+                    // the statement names a hang as a forbidden outcome; it is reported only when
+                    // the formatter demonstrably terminates on the same input with a correct
+                    // caller (otherwise nothing can be concluded from a bounded wait)
+                    if r["reference_driver_ms"].as_u64().is_some() {
+                        out.fail(format!("write-hangs/{name}/{size_class}"), format!("{settings}: {}", r["detail"]));
+                    } else {
+                        out.inconclusive = Some(format!("{name} {size_class} {settings}: {}", r["detail"]));
+                    }
                     continue;
                 }
                 _ => continue,
